@@ -130,7 +130,10 @@ Definition c36_step (k : trk) (o : wop) (r : ret) : trk * list N :=
           let same := te_part ce =? te_part ge in
           let v := if negb glive then chk_use false r 0%N
                    else if negb same then []
-                   else if te_live ce then chk_use true r 0%N
+                   else if te_live ce then
+                     (* its related topic can only be gone through the recorded finding (delete_topic ignores
+                        content filtered topics): whatever happens then is a consequence of it *)
+                     (if name_recreated k (te_part ce) (te_name ce) then chk_use true r 0%N else [])
                    else chk_use false r CLS_CFT in
           if is_handle r then (set_E SSub k (k_R k ++ [mkTE true (te_part ge) g (te_name ce) true]), v)
           else (k, v)
